@@ -285,8 +285,8 @@ def random_history(rng, focus=None, n_events=None):
     return rec.trace()
 
 
-def validate(report, traces, invs, props, tag="lintr"):
-    return common.validate_traces(report, MODULE_TR, TR_CONSTS, traces, invs, props, tag, "cm_linear")
+def validate(report, traces, invs, props, tag="lintr", timeout=1500):
+    return common.validate_traces(report, MODULE_TR, TR_CONSTS, traces, invs, props, tag, "cm_linear", timeout=timeout)
 
 
 # ------------------------------------------------------------- spec -> code replay
